@@ -25,6 +25,7 @@ import (
 type c20peer struct {
 	dialFails   bool
 	alpnOK      bool
+	alpnNone    bool
 	writeFails  bool
 	exportFails bool
 	stream      []byte
@@ -58,8 +59,12 @@ func c20Dial(d *net.Dialer, network, addr string, config *tls.Config) (*tls.Conn
 func c20RemoteAddrString() string { return "127.0.0.1:4460" }
 func c20State(c *tls.Conn) tls.ConnectionState {
 	var cs tls.ConnectionState
-	if c20.peers[c20.ndials-1].alpnOK {
+	p := &c20.peers[c20.ndials-1]
+	if p.alpnOK {
 		cs.NegotiatedProtocol = "ntske/1"
+	} else if p.alpnNone {
+		// a peer without any ALPN configuration: the handshake completes with no protocol negotiated
+		cs.NegotiatedProtocol = ""
 	} else {
 		cs.NegotiatedProtocol = "h2"
 	}
@@ -88,6 +93,7 @@ func c20Export(cs *tls.ConnectionState, label string, ctx []byte, length int) ([
 func c20newPeer(maxLen, maxRec int) c20peer {
 	var p c20peer
 	p.dialFails, p.alpnOK, p.writeFails, p.exportFails = v.Bool("peer.dialfails"), v.Bool("peer.alpnok"), v.Bool("peer.writefails"), v.Bool("peer.exportfails")
+	p.alpnNone = v.Bool("peer.alpnnone")
 	raw := v.Bytes("peer.stream", maxLen)
 	n := v.Int("peer.n")
 	v.Assume(0 <= n && n <= maxLen)
@@ -197,6 +203,8 @@ func c20ServeNative(f *Fetcher) {
 		hello++
 		if i < len(c20.peers) && c20.peers[i].alpnOK {
 			c.NextProtos = []string{"ntske/1"}
+		} else if i < len(c20.peers) && c20.peers[i].alpnNone {
+			c.NextProtos = nil
 		} else {
 			c.NextProtos = []string{"h2", "ntske/1-not"}
 		}
